@@ -646,7 +646,7 @@ fn subscriber_children(ctx: &mut Ctx) {
         "a global tracing subscriber cannot be uninstalled: each history runs in a child process (vcheck C01 --child boxed,k,late,second). Typed or boxed queue; k valid entries then one Validation result, flushed; the subscriber is installed either before the queue is built or only now (late: the first validation error may have produced one in-band report); after the 1 s report rate limit has expired k more entries, another Validation result, k more; optionally a second queue of the other flavour built after the subscriber exists gets the same. Oracle: after the subscriber is installed no in-band report entry reaches any stream, every appended entry reaches its stream exactly once in order. Non-trivial = late installation or a second queue",
     );
     let n_children = ctx.tier.pick(4, 24);
-    let exe = std::env::current_exe().unwrap();
+    let exe = crate::engine::self_exe();
     let mut failure = None;
     let mut handles = vec![];
     for i in 0..n_children {
